@@ -124,6 +124,8 @@ Proof.
   - destruct (effective_ws_origin r); [|reflexivity].
     destruct (negb _); [reflexivity|].
     destruct (check_origin _ _ _ _) as [[|]|e|]; reflexivity.
+  - reflexivity.
+  - reflexivity.
 Qed.
 
 Lemma t5_holds r : t5_off_accepts_all r (handle r) = true.
@@ -134,6 +136,8 @@ Proof.
   - apply eqb_reflx.
   - reflexivity.
   - destruct (effective_ws_origin r); reflexivity.
+  - reflexivity.
+  - reflexivity.
 Qed.
 
 Lemma all_monitors_hold r : forallb (fun b => b) (all_monitors r (handle r)) = true.
@@ -208,10 +212,54 @@ Lemma refused_is_inert r :
 Proof.
   intros H. pose proof (t4_holds r) as T. unfold t4_refused_inert, is_refused in T.
   apply Z.leb_le in H. rewrite H in T. cbn in T.
+  apply andb_true_iff in T. destruct T as [T _].
+  apply andb_true_iff in T. destruct T as [T _].
   apply andb_true_iff in T. destruct T as [T1 T2].
   apply negb_true_iff in T1. apply negb_true_iff in T2. unfold cors_granted in T2.
   apply orb_false_iff in T2. destruct T2 as [T2 T3].
   repeat split; auto. destruct (acao (handle r)); [discriminate|reflexivity].
+Qed.
+
+(* non-interference over the whole handler model: a refused request changes no state (no
+   call into the core, no new member of the WebSocket client set) and carries none of the
+   handlers' headers (no Access-Control-Allow-*, no Mopidy / JSON headers) *)
+Lemma refused_changes_nothing r st :
+  400 <= status (handle r) ->
+  apply_response st (handle r) = st /\
+  acao (handle r) = None /\ acah (handle r) = false /\ extra (handle r) = false.
+Proof.
+  intros H. pose proof (t4_holds r) as T. unfold t4_refused_inert, is_refused in T.
+  apply Z.leb_le in H. rewrite H in T. cbn in T.
+  apply andb_true_iff in T. destruct T as [T T4].
+  apply andb_true_iff in T. destruct T as [T T3].
+  apply andb_true_iff in T. destruct T as [T1 T2].
+  apply negb_true_iff in T1, T2, T3, T4. unfold cors_granted in T2.
+  apply orb_false_iff in T2. destruct T2 as [T2 T2'].
+  unfold apply_response. rewrite T1, T3, !Z.add_0_r. destruct st. repeat split; auto.
+  destruct (acao (handle r)); [discriminate|reflexivity].
+Qed.
+
+(* ... and conversely only the three accepting outcomes change anything *)
+Lemma state_change_needs_acceptance r st :
+  apply_response st (handle r) <> st ->
+  (r_kind r = Post /\ status (handle r) = 200 /\ r_body r = true) \/
+  (r_kind r = WsHandshake /\ status (handle r) = 101).
+Proof.
+  unfold apply_response, handle, handle_post, handle_options, handle_ws, ws_accept, refuse.
+  destruct st as [a b]. intros H.
+  destruct (r_kind r).
+  - left. destruct (r_csrf r); [destruct (negb _)|]; cbn in *;
+      try (exfalso; apply H; now rewrite !Z.add_0_r);
+      (destruct (r_body r); [auto|exfalso; apply H; cbn; now rewrite !Z.add_0_r]).
+  - exfalso. apply H. destruct (r_csrf r); [|cbn; now rewrite !Z.add_0_r].
+    destruct (check_origin _ _ _ _) as [[|]|e|]; try (cbn; now rewrite !Z.add_0_r).
+    destruct (r_origin r) as [[|c o]|]; cbn; now rewrite !Z.add_0_r.
+  - right. destruct (effective_ws_origin r); [|auto].
+    destruct (negb _); [auto|].
+    destruct (check_origin _ _ _ _) as [[|]|e|]; cbn in *; auto;
+      exfalso; apply H; now rewrite !Z.add_0_r.
+  - exfalso. apply H. cbn. now rewrite !Z.add_0_r.
+  - exfalso. apply H. cbn. now rewrite !Z.add_0_r.
 Qed.
 
 (* a request the policy rejects is answered with a refusal status (so T4 applies to it) *)
@@ -222,15 +270,19 @@ Lemma policy_reject_is_refusal r :
   | Options => check_origin (r_orc r) (r_allow r) (r_origin r) (r_host r) <> Ok true
   | WsHandshake => exists o, effective_ws_origin r = Some o /\
                              check_origin (r_orc r) (r_allow r) (Some o) (r_host r) <> Ok true
+  | Head => False
+  | OtherMethod => True
   end ->
   400 <= status (handle r).
 Proof.
   intros C. unfold handle, handle_post, handle_options, handle_ws, refuse.
-  destruct (r_kind r); rewrite C.
+  destruct (r_kind r); try rewrite C.
   - intros H. destruct (str_eqb _ _) eqn:E; [apply str_eqb_eq in E; contradiction|cbn; lia].
   - intros H. destruct (check_origin _ _ _ _) as [[|]|e|]; cbn; try lia. now contradiction H.
   - intros [o [E H]]. rewrite E. cbn [negb].
     destruct (check_origin _ _ _ _) as [[|]|e|]; cbn; try lia. now contradiction H.
+  - intros [].
+  - intros _. cbn. lia.
 Qed.
 
 (* T5 *)
@@ -240,10 +292,12 @@ Lemma protection_off_accepts_all r :
   | Post => status (handle r) = 200 /\ reaches_core (handle r) = r_body r
   | Options => status (handle r) = 204
   | WsHandshake => status (handle r) = 101 /\ reaches_core (handle r) = true
+  | Head => status (handle r) = 200
+  | OtherMethod => status (handle r) = 405
   end.
 Proof.
   intros C. unfold handle, handle_post, handle_options, handle_ws, ws_accept.
-  destruct (r_kind r); rewrite C; cbn; auto.
+  destruct (r_kind r); try rewrite C; cbn; auto.
   destruct (effective_ws_origin r); cbn; auto.
 Qed.
 
@@ -253,6 +307,59 @@ Lemma allow_case_insensitive items n :
   In (lower n) (config_allow items) <-> exists i, In i items /\ lower i = lower n.
 Proof.
   unfold config_allow. rewrite in_map_iff. split; intros [i [A B]]; exists i; auto.
+Qed.
+
+(* ------------------------------------- from the config text to the allow-list *)
+
+Lemma cfg_values_spec items vs :
+  cfg_values items = Ok vs ->
+  vs = config_allow (map (fun it => strip (cfg_decode it)) items) /\
+  (forall it, In it items -> strip (cfg_decode it) <> []).
+Proof.
+  revert vs. induction items as [|it t IH]; cbn; intros vs H.
+  - injection H as <-. split; [reflexivity|intros ? []].
+  - destruct (strip (cfg_decode it)) as [|c r] eqn:E; [discriminate|].
+    destruct (cfg_values t) as [ws|e|]; cbn in H; try discriminate.
+    injection H as <-. destruct (IH ws eq_refl) as [-> K]. split; [reflexivity|].
+    intros x [<-|Hx]; [rewrite E; discriminate|now apply K].
+Qed.
+
+Lemma cfg_values_raises items :
+  (exists it, In it items /\ strip (cfg_decode it) = []) <-> cfg_values items = Raise ValueError.
+Proof.
+  induction items as [|it t IH]; cbn.
+  - split; [intros [? [[] _]]|discriminate].
+  - destruct (strip (cfg_decode it)) as [|c r] eqn:E.
+    + split; [reflexivity|]. intros _. exists it. auto.
+    + split.
+      * intros [x [[<-|Hx] Hs]]; [rewrite E in Hs; discriminate|].
+        assert (cfg_values t = Raise ValueError) as -> by (apply IH; eauto). reflexivity.
+      * destruct (cfg_values t) as [ws|[]|] eqn:V; cbn; try discriminate.
+        intros _. destruct (proj2 IH eq_refl) as [x [Hx Hs]]. exists x. auto.
+Qed.
+
+Lemma parse_allowed_origins_raises text :
+  (exists it, In it (cfg_items (cfg_decode text)) /\ strip (cfg_decode it) = []) <->
+  parse_allowed_origins text = Raise ValueError.
+Proof. apply cfg_values_raises. Qed.
+
+(* every entry the handlers hold is non-empty and already lower-case, and membership of a
+   lower-cased netloc means: some configured entry equals it modulo case *)
+Lemma parse_allowed_origins_sound text vs :
+  parse_allowed_origins text = Ok vs ->
+  (forall v, In v vs -> lower v = v /\ v <> []) /\
+  (forall n, In (lower n) vs <->
+             exists it, In it (cfg_items (cfg_decode text)) /\
+                        lower (strip (cfg_decode it)) = lower n).
+Proof.
+  unfold parse_allowed_origins. intros H. apply cfg_values_spec in H. destruct H as [-> K]. split.
+  - intros v Hv. unfold config_allow in Hv. rewrite map_map in Hv. apply in_map_iff in Hv.
+    destruct Hv as [it [<- Hit]]. split; [apply lower_idem|].
+    intros E. apply (proj1 (lower_nil_iff _)) in E. exact (K it Hit E).
+  - intros n. rewrite allow_case_insensitive. split.
+    + intros [i [Hi E]]. apply in_map_iff in Hi. destruct Hi as [it [<- Hit]]. eauto.
+    + intros [it [Hit E]]. exists (strip (cfg_decode it)). split; [|assumption].
+      apply in_map_iff. eauto.
 Qed.
 
 (* ------------------------------------------------ what urlsplit's netloc is *)
@@ -393,7 +500,7 @@ Lemma same_origin_browser_accepted r scheme hp :
   r_csrf r = true -> r_kind r = Options -> scheme_wf scheme -> hostport_wf hp -> hp <> [] ->
   is_ascii_str hp = true -> has 91 hp = false -> has 93 hp = false ->
   r_origin r = Some (browser_origin scheme hp) -> r_host r = Some (lower hp) ->
-  handle r = mkResp 204 (Some (browser_origin scheme hp)) true false.
+  handle r = mkResp 204 (Some (browser_origin scheme hp)) true false false false.
 Proof.
   intros C K S HP NE A LB RB O H.
   unfold handle, handle_options. rewrite K, C, O.
